@@ -747,3 +747,53 @@ theorem export_zip (ext : Ctx) (nodes : List NodeIn) (outs : List StartOut) (hle
   rintro ⟨n, o⟩ hx
   have hp := (h n o (List.mem_reverse.mp (List.mem_filter.mp hx).1)).2
   simp only [Function.comp, Prod.map, id, Spec.obsOf, parentOf_map, hp]
+
+/-! ## attributes of a started span: de-duplication keeps the last value -/
+
+def getKV (l : List AttrKV) (k : Nat) : Option Int := (l.find? (·.1 == k)).map (·.2)
+
+theorem getKV_upsert (l : List AttrKV) (a : AttrKV) (k : Nat) :
+    getKV (upsertKV l a) k = if a.1 = k then some a.2 else getKV l k := by
+  induction l with
+  | nil => by_cases hk : a.1 = k <;> simp [upsertKV, getKV, List.find?, hk]
+  | cons b tl ih =>
+    unfold upsertKV
+    by_cases hb : b.1 = a.1
+    · simp only [hb, if_true]
+      by_cases hk : a.1 = k
+      · simp [getKV, List.find?, hk]
+      · have hbk : (b.1 == k) = false := by simp [hb, hk]
+        have hak : (a.1 == k) = false := by simp [hk]
+        simp [getKV, List.find?, hbk, hak]
+        intro h; exact absurd h hk
+    · simp only [hb, if_false]
+      by_cases hk : b.1 = k
+      · have : a.1 ≠ k := by intro h; exact hb (hk.trans h.symm)
+        simp [getKV, List.find?, hk, this]
+      · have hbk : (b.1 == k) = false := by simp [hk]
+        have := ih
+        simp only [getKV] at this ⊢
+        simp only [List.find?, hbk]
+        exact this
+
+theorem getKV_foldl (l : List AttrKV) (acc : List AttrKV) (k : Nat) :
+    getKV (l.foldl upsertKV acc) k = match Spec.lastValue l k with
+      | some v => some v
+      | none => getKV acc k := by
+  induction l generalizing acc with
+  | nil => simp [Spec.lastValue]
+  | cons a tl ih =>
+    rw [List.foldl_cons, ih]
+    simp only [Spec.lastValue, List.reverse_cons, List.find?_append]
+    cases h : tl.reverse.find? (·.1 == k) with
+    | some x => simp
+    | none =>
+      simp only [Option.none_or, Option.map_none]
+      rw [getKV_upsert]
+      by_cases hk : a.1 = k
+      · simp [List.find?, hk]
+      · have hak : (a.1 == k) = false := by simp [hk]
+        simp [List.find?, hak, getKV]
+        intro h; exact absurd h hk
+
+end Otel.C09
